@@ -72,6 +72,24 @@ def _strip_comments(src: str) -> str:
     return "\n".join(l.split("--")[0] for l in src.split("\n"))
 
 
+def _import_closure(mod):
+    seen, todo, out = set(), [mod], []
+    while todo:
+        m = todo.pop()
+        if m in seen:
+            continue
+        seen.add(m)
+        path = os.path.join(LEAN, *m.split(".")) + ".lean"
+        if not os.path.exists(path):
+            continue
+        out.append(path)
+        for l in open(path):
+            mm = re.match(r"\s*import\s+(SMV\.[\w.]+)", l)
+            if mm:
+                todo.append(mm.group(1))
+    return out
+
+
 def index_of(prop):
     p = os.path.join(LEAN, "SMV", "Props", f"{prop}.index")
     if not os.path.exists(p):
@@ -107,14 +125,12 @@ def lean_obligations(ctx: Ctx, modules=None):
                 axioms[n] = set()
             else:
                 failed.append(f"no-axiom-report:{n}")
-    # forbidden tokens anywhere in the library sources
-    for root, _, files in os.walk(os.path.join(LEAN, "SMV")):
-        for fn in files:
-            if fn.endswith(".lean"):
-                src = _strip_comments(open(os.path.join(root, fn)).read())
-                for pat in FORBIDDEN:
-                    if re.search(pat, src, flags=re.M):
-                        failed.append(f"forbidden:{pat}:{fn}")
+    # forbidden tokens in every source file the property module (transitively) imports
+    for path in _import_closure(mod):
+        src = _strip_comments(open(path).read())
+        for pat in FORBIDDEN:
+            if re.search(pat, src, flags=re.M):
+                failed.append(f"forbidden:{pat}:{os.path.basename(path)}")
     discharged = 0
     for n in names:
         if n in axioms and axioms[n] <= ALLOWED_AXIOMS:
